@@ -274,7 +274,14 @@ def rule_order(repo: Repo, rid: str = "C12.order") -> RuleResult:
                         if (a0 or a1) and once(call, "construct"):
                             r.site(L.site(f, call, "tree construction"))
                             seen_kinds.add("construct")
-                            if a0 == {"item:1"} and a1 == {"item:2"}:
+                            rebuilt = sorted({pth[0] for pth in e0 | e1 if pth[0] in ("fresh:list", "fresh:tuple", "fresh:comp")})
+                            if rebuilt:
+                                # the operand handed to the recursion is a list assembled here, not a sub-term of the text as written
+                                # (re-association of (- a b c) into (- a (- b c)) changes the value)
+                                r.fail(Finding(rid, f, "construct:reassembled-operand",
+                                               "an operand of the new node is a list assembled in the function instead of a sub-term of the parsed text: "
+                                               "the formula that is stored is not the one that was written", node=call))
+                            elif a0 == {"item:1"} and a1 == {"item:2"}:
                                 r.ok({"function": f.qn, "children_from_ast_positions": [sorted(a0), sorted(a1)]})
                             else:
                                 r.fail(Finding(rid, f, "construct:children-order",
